@@ -589,9 +589,11 @@ def scope_impls(repo):
         # nothing at all — recorded as `anon`, which `sigOK` rejects
         elif re.match(r"^&\s*('[a-z_]+\s+)?Bump\s*<", t): ent = ("refBump", "anon")
         elif re.match(r"^&\s*('[a-z_]+\s+)?mut\s+Bump\s*<", t): ent = ("refMutBump", "anon")
-        elif t == "&B" and bound_b: ent = ("refB", "forward")
-        elif t == "&mut B" and bound_b: ent = ("refMutB", "forward")
-        elif re.match(r"^(WithoutDealloc|WithoutShrink)\s*<\s*B\s*>$", t) and bound_b: ent = ("wrapper", "forward")
+        # forwarding impls: `'a` is `B`'s scope lifetime only if the header says `B: BumpAllocatorCoreScope<'a>`; without that
+        # bound the implementor promises EVERY `'a` (recorded as `anon`, which `sigOK` rejects)
+        elif t == "&B": ent = ("refB", "forward" if bound_b else "anon")
+        elif t == "&mut B": ent = ("refMutB", "forward" if bound_b else "anon")
+        elif re.match(r"^(WithoutDealloc|WithoutShrink)\s*<\s*B\s*>$", t): ent = ("wrapper", "forward" if bound_b else "anon")
         else: die(f"bump_allocator_core_scope.rs:{b.line}: unsupported implementor `{t}` of BumpAllocatorCoreScope<{lt}>")
         res.append(ent + (t, b.line))
     if not res: die("no BumpAllocatorCoreScope impls found")
